@@ -20,6 +20,7 @@ package main
 import (
 	"fmt"
 	"math/big"
+	"os"
 	"strings"
 
 	"github.com/kardiachain/go-kardia/kai/kaidb/memorydb"
@@ -60,6 +61,7 @@ type op struct {
 	v       int64
 	dump    string // F | N | S.a.k
 	touchRM bool   // an AddBalance(ripemd,0) executed while ripemd existed and was empty
+	capd    int    // CM only, snapshot-tree database only: 1 = then snaps.Cap(root, 0) (flatten into the disk layer), 2 = snaps.Cap(root, 1)
 }
 
 func (p op) line() string {
@@ -83,13 +85,22 @@ func (p op) line() string {
 
 // env is one database with its StateDB handles.
 type env struct {
-	mdb    *memorydb.Database
-	sdb    state.Database
-	snaps  *snapshot.Tree
-	hs     map[int]*state.StateDB
-	labels map[common.Hash]int
-	byLab  map[int]common.Hash
-	ua, uk []int
+	mdb                     *memorydb.Database
+	sdb                     state.Database
+	snaps                   *snapshot.Tree
+	hs                      map[int]*state.StateDB
+	labels                  map[common.Hash]int
+	byLab                   map[int]common.Hash
+	ua, uk                  []int
+	withLayer, withoutLayer int // re-opens in snapshot mode that found / did not find a snapshot layer for the root
+	// shape of the snapshot tree as far as the harness created it (snapshot mode only): Cap is only
+	// called while the diff layers form a single chain and the capped root is its tip — flattening
+	// underneath a sibling branch is outside the tree's contract (geth: "committed into the same base
+	// from two children") and here blocks forever on the finished generator's abort channel
+	attach   map[int]common.Hash // handle -> root of the layer its StateDB is attached to
+	chainTip common.Hash
+	branched bool
+	caps     int
 }
 
 func newEnv(withSnaps bool, ua, uk []int) *env {
@@ -99,11 +110,15 @@ func newEnv(withSnaps bool, ua, uk []int) *env {
 	if withSnaps {
 		e.snaps, _ = snapshot.New(snapshot.Config{CacheSize: 1, NoBuild: false, AsyncBuild: false}, e.mdb, e.sdb.TrieDB(), types.EmptyRootHash)
 	}
-	st, err := state.New(common.Hash{}, e.sdb, e.snaps)
+	// NB: the empty-trie root, not the zero hash: the snapshot tree has no layer for common.Hash{}
+	// and a StateDB opened on it would silently run without snapshots for its whole life
+	st, err := state.New(types.EmptyRootHash, e.sdb, e.snaps)
 	if err != nil {
 		panic(err)
 	}
 	e.hs[0] = st
+	e.attach = map[int]common.Hash{0: types.EmptyRootHash}
+	e.chainTip = types.EmptyRootHash
 	return e
 }
 
@@ -311,11 +326,40 @@ func (e *env) exec(p op) (res string, panicked bool) {
 			res = "ERR"
 		} else {
 			res = fmt.Sprintf("r%d", e.label(root))
+			if e.snaps != nil {
+				at, attached := e.attach[p.h]
+				delete(e.attach, p.h) // Commit drops the StateDB's snapshot reference
+				if attached && root != at && e.snaps.Snapshot(root) != nil {
+					if at == e.chainTip {
+						e.chainTip = root
+					} else {
+						e.branched = true
+					}
+				}
+				if p.capd > 0 && !e.branched && root == e.chainTip && attached {
+					e.snaps.Cap(root, p.capd-1)
+					e.caps++
+					if p.capd == 1 {
+						e.branched = false
+					}
+				}
+			}
 		}
 	case "CP":
 		e.hs[int(p.v)] = st.Copy()
+		if at, ok := e.attach[p.h]; ok && e.snaps != nil {
+			e.attach[int(p.v)] = at
+		}
 	case "NW":
 		n, err := state.New(e.byLab[int(p.v)], e.sdb, e.snaps)
+		if e.snaps != nil {
+			if e.snaps.Snapshot(e.byLab[int(p.v)]) != nil {
+				e.attach[p.a] = e.byLab[int(p.v)]
+				e.withLayer++
+			} else {
+				e.withoutLayer++
+			}
+		}
 		if err != nil {
 			res = "ERR"
 		} else {
@@ -595,6 +639,9 @@ func runCase(o *out.Out, r *gen.Rand, c int) {
 	// ---- replay the identical history on a database with a snapshot tree
 	e2 := newEnv(true, ua, uk)
 	for i, p := range cr.ops {
+		if os.Getenv("C08DEBUG") != "" {
+			fmt.Fprintf(os.Stderr, "snap-replay %s cap=%d\n", p.line(), p.capd)
+		}
 		res, _ := e2.exec(p)
 		d := ""
 		if p.dump != "N" {
@@ -606,6 +653,9 @@ func runCase(o *out.Out, r *gen.Rand, c int) {
 		}
 	}
 	o.Count("oracle.snap-replayed")
+	o.Dist["snap.reopen-with-layer"] += e2.withLayer
+	o.Dist["snap.reopen-without-layer"] += e2.withoutLayer
+	o.Dist["snap.caps"] += e2.caps
 	for _, st := range cr.e.hs {
 		if st.Error() != nil {
 			o.Fail(cr.step, "db-error", "memoised database error: "+st.Error().Error())
@@ -663,7 +713,9 @@ func (cr *caseRun) spec(a, k int) string {
 }
 
 // commitAndReopen: dump, Commit, dump, re-open at the root, dump; read-back oracles.
-func (cr *caseRun) commitAndReopen(h int, de bool) {
+func (cr *caseRun) commitAndReopen(h int, de bool) { cr.commitAndReopenCap(h, de, cr.r.Pick(2, 2, 1)) }
+
+func (cr *caseRun) commitAndReopenCap(h int, de bool, capd int) {
 	e := cr.e
 	st := e.hs[h]
 	cr.do(op{h: h, code: "DU", dump: "F"})
@@ -682,7 +734,7 @@ func (cr *caseRun) commitAndReopen(h int, de bool) {
 	if de {
 		v = 1
 	}
-	res := cr.do(op{h: h, code: "CM", v: v, dump: "F"})
+	res := cr.do(op{h: h, code: "CM", v: v, dump: "F", capd: capd})
 	var lab int
 	if n, _ := fmt.Sscanf(res, "r%d", &lab); n != 1 {
 		return
@@ -741,6 +793,51 @@ func (cr *caseRun) generate() {
 		if e.hs[cr.nextH-1] != nil && r.Chance(5, 6) {
 			cur = cr.nextH - 1
 			live = append(live, cur)
+		}
+	}
+	// directed boundary family (snapshot layers): storage written in one block and flattened into the
+	// disk layer, the account destructed and re-created in a later block without touching the slot,
+	// then read through a state opened on the new root (with the tree: diff layer over disk layer)
+	if r.Chance(1, 12) {
+		a := ua[r.Intn(3)]
+		k := uk[r.Intn(3)]
+		cr.do(op{h: cur, code: "SS", a: a, k: k, v: int64(1 + r.Intn(3)), dump: cr.spec(a, k)})
+		cr.do(op{h: cur, code: "AB", a: a, v: int64(1 + r.Intn(5)), dump: cr.spec(a, -1)})
+		cr.commitAndReopenCap(cur, r.Bool(), 1+r.Intn(2))
+		if nh := cr.nextH - 1; e.hs[nh] != nil {
+			cur = nh
+			live = append(live, nh)
+			for i := r.Intn(3); i > 0; i-- { // optional intermediate blocks that leave diff layers
+				cr.do(op{h: cur, code: "NO", a: ua[r.Intn(3)], v: int64(1 + r.Intn(3)), dump: cr.spec(-1, -1)})
+				cr.commitAndReopenCap(cur, true, r.Intn(3))
+				if n2 := cr.nextH - 1; e.hs[n2] != nil {
+					cur = n2
+				}
+			}
+			cr.do(op{h: cur, code: "SU", a: a, dump: cr.spec(a, k)})
+			if r.Bool() {
+				cr.do(op{h: cur, code: "FI", v: 1, dump: cr.spec(a, k)})
+			}
+			switch r.Intn(3) {
+			case 0:
+				cr.do(op{h: cur, code: "AB", a: a, v: int64(1 + r.Intn(5)), dump: cr.spec(a, k)})
+			case 1:
+				cr.do(op{h: cur, code: "CA", a: a, dump: cr.spec(a, k)})
+				cr.do(op{h: cur, code: "NO", a: a, v: 1, dump: cr.spec(a, k)})
+			case 2:
+				k2 := uk[(indexOf(uk, k)+1)%3]
+				cr.do(op{h: cur, code: "SS", a: a, k: k2, v: int64(1 + r.Intn(3)), dump: cr.spec(a, k2)})
+			}
+			cr.commitAndReopenCap(cur, true, r.Intn(2)*2) // keep the destruct in a diff layer (no cap, or cap to depth 1)
+			if n3 := cr.nextH - 1; e.hs[n3] != nil {
+				cur = n3
+				live = append(live, n3)
+				cr.do(op{h: cur, code: "SS", a: a, k: k, v: int64(1 + r.Intn(3)), dump: "F"})
+			}
+			cr.o.Count("family.destruct-recreate-over-disk-layer")
+		}
+		if len(live) > 4 {
+			live = live[len(live)-4:]
 		}
 	}
 	// directed boundary family: reverted touch of the existing empty RIPEMD account, then IntermediateRoot(true)
@@ -847,7 +944,7 @@ func (cr *caseRun) generate() {
 			cr.do(op{h: h, code: "IR", v: int64(r.Pick(1, 2)), dump: cr.spec(a, k)})
 		case 20:
 			if r.Bool() {
-				cr.do(op{h: h, code: "CM", v: int64(r.Pick(1, 2)), dump: cr.spec(a, k)})
+				cr.do(op{h: h, code: "CM", v: int64(r.Pick(1, 2)), dump: cr.spec(a, k), capd: r.Pick(2, 2, 1)})
 			} else {
 				cr.commitAndReopen(h, r.Chance(2, 3))
 				if len(live) < 4 && r.Bool() {
